@@ -471,7 +471,7 @@ func c18Run(c *mon.Ctx, idx int) {
 			}
 		}
 		o1, ok1, _ := c18Eval(text, node, append(append([]optSpec(nil), rest...), optSpec{kind: "tag", tag: "zz9"}))
-		o2, ok2, _ := c18Eval(text, node, append(append([]optSpec(nil), set...), optSpec{kind: "tag", tag: ""}))
+		o2, ok2, _ := c18Eval(text, node, append(append([]optSpec(nil), set...), optSpec{kind: "tag", tag: []string{"", "my tag", "bexpr ", " bexpr", "json:", "a\"b", "\x7f", "\ttab", "bexpr\x00"}[r.Intn(9)]}))
 		c.Evals(2)
 		if ok1 != ok2 || (ok1 && o1.Class3() != o2.Class3()) {
 			c.Violation(fmt.Sprintf("C18 unused-tag-keys-differ zz9=%s empty=%s", o1.Class3(), o2.Class3()), "two tag names that no field of the datum carries (\"zz9\" and the empty name, given last) gave different outcomes",
